@@ -241,9 +241,25 @@ func (x *Exec) zeroArray(st *State, prefix string, et types.Type, ref string) {
 		x.regHeap(p, l.Sort, SBV64)
 		a := x.heapArr(st, p)
 		c := x.smt.Fresh("H."+p, x.arraySort(p))
-		x.smt.Assert(eq(c, store(a, ref, "((as const (Array "+SBV64+" "+l.Sort+")) "+zeroLeaf(l.Sort)+")")))
+		x.smt.Assert(eq(c, store(a, ref, x.constArray(SBV64, l.Sort))))
 		st.heap[p] = c
 	}
+}
+
+// constArray returns an array whose every element is the zero value of sort.
+// Uninterpreted element sorts cannot be used with (as const ...) in cvc5, so
+// a named array with a quantified axiom is used for them.
+func (x *Exec) constArray(idx, sort string) string {
+	switch sort {
+	case SIface, SStr, SFn, SOpq:
+		name := "zeroarr." + sortTag(idx) + "." + sortTag(sort)
+		if !x.smt.declared[name] {
+			x.smt.Declare(name, "(Array "+idx+" "+sort+")")
+			x.smt.Assert(fmt.Sprintf("(forall ((i %s)) (! (= (select %s i) %s) :pattern ((select %s i))))", idx, name, zeroLeaf(sort), name))
+		}
+		return name
+	}
+	return "((as const (Array " + idx + " " + sort + ")) " + zeroLeaf(sort) + ")"
 }
 
 func (x *Exec) doAlloc(st *State, et types.Type, pt types.Type, hint string) Val {
